@@ -222,6 +222,13 @@ func (g *egen) str(d int) string {
 	case 6:
 		return fmt.Sprintf("upper(%s)", g.str(d-1))
 	case 7:
+		switch r.n(3) {
+		case 0:
+			// literal text is rendered before the callback runs
+			return fmt.Sprintf(`"pre-${cb_str(%s)}-post"`, g.str(d-1))
+		case 1:
+			return fmt.Sprintf(`"a${%s}b${cb_num(%s)}c"`, g.str(d-1), g.num(d-1))
+		}
 		return fmt.Sprintf(`"${%s}:${%s}"`, g.str(d-1), g.num(d-1))
 	case 8:
 		return fmt.Sprintf("(%s ? %s : %s)", g.boolean(d-1), g.str(d-1), g.str(d-1))
@@ -653,7 +660,7 @@ func genCase(seed uint64, profile string, deep, cold bool) *Case {
 		}
 	}
 	c.ExpandCheck = r.chance(1, 3)
-	c.PoolsRetain = r.chance(1, 3)
+	c.PoolsRetain = r.chance(2, 5)
 	c.Pretouch = r.chance(1, 2)
 	if cold {
 		c.ConcFirst, c.Pretouch = true, false
